@@ -1313,17 +1313,9 @@ impl<'tcx> Cx<'tcx> {
                     st.cells.push(Cell { ty: lty, v: V::Undef, name: None });
                     locals.push(st.cells.len() - 1);
                 }
-                if let Some(spread) = body.spread_arg {
-                    let n_normal = spread.as_usize() - 1;
-                    for i in 0..n_normal {
-                        st.cells[locals[i + 1]].v = argv[i].clone();
-                    }
-                    if argv.len() == n_normal + 1 {
-                        st.cells[locals[spread.as_usize()]].v = argv[n_normal].clone();
-                    } else {
-                        st.cells[locals[spread.as_usize()]].v = V::Agg(argv[n_normal..].to_vec());
-                    }
-                } else if body.arg_count != argv.len() {
+                // closures are declared with separate parameters but called with a tupled argument ("rust-call")
+                let untuple = matches!(inst.def, InstanceKind::Item(d) if tcx.is_closure_like(d)) && body.spread_arg.is_none();
+                if untuple {
                     let n = argv.len();
                     if n == 0 {
                         return Err("argument count mismatch".into());
@@ -1340,6 +1332,9 @@ impl<'tcx> Cx<'tcx> {
                         _ => return Err("cannot untuple rust-call arguments".into()),
                     }
                 } else {
+                    if body.arg_count != argv.len() {
+                        return Err(format!("argument count mismatch calling {}", rpretty));
+                    }
                     for (i, a) in argv.iter().enumerate() {
                         st.cells[locals[i + 1]].v = a.clone();
                     }
@@ -1429,19 +1424,14 @@ impl<'tcx> Cx<'tcx> {
                 locals.push(s2.cells.len() - 1);
             }
             let argv = vec![f.clone(), V::Agg(vec![acc, item])];
-            if let Some(spread) = body.spread_arg {
-                let n_normal = spread.as_usize() - 1;
-                for i in 0..n_normal {
-                    s2.cells[locals[i + 1]].v = argv[i].clone();
-                }
-                s2.cells[locals[spread.as_usize()]].v = argv[n_normal].clone();
-            } else if body.arg_count == 3 {
+            let untuple = matches!(inst.def, InstanceKind::Item(d) if tcx.is_closure_like(d)) && body.spread_arg.is_none();
+            if untuple && body.arg_count == 3 {
                 s2.cells[locals[1]].v = argv[0].clone();
                 if let V::Agg(fs) = &argv[1] {
                     s2.cells[locals[2]].v = fs[0].clone();
                     s2.cells[locals[3]].v = fs[1].clone();
                 }
-            } else if body.arg_count == 2 {
+            } else if !untuple && body.arg_count == 2 {
                 s2.cells[locals[1]].v = argv[0].clone();
                 s2.cells[locals[2]].v = argv[1].clone();
             } else {
